@@ -97,7 +97,8 @@ let handle_proto (toks : string list) : string =
       fingerprint !clients.(m) "ok" (Some ev) end
   | "ADV" ->
     if refused then "ok" else begin
-      let ev = i 4 in Hashtbl.replace events ev (mk_event ev 0 facts a.(5) 0); "ok" end
+      (* akind "pr": a Remove proposal naming another member, built with the MLS library (kind 2, removes = the victim) *)
+      let ev = i 4 in Hashtbl.replace events ev (mk_event ev (if a.(2) = "pr" then 2 else 0) facts a.(5) 0); "ok" end
   | "BAD" ->   (* declaration of a hostile event: PR BAD <ev> <ts> <cls> | bad=<model class> *)
     let ev = i 1 in Hashtbl.replace events ev (mk_event ev 3 facts a.(2) 0); "ok"
   | "DELIVER" ->
